@@ -156,6 +156,44 @@ def judge_diff(ck, case, line, desc, f, threads, found_sink):
             found_sink.append(f)
     return res
 
+def tsan_run(ck, bdir, wd, mods):
+    """clang++ -fopenmp -fsanitize=thread build of the library sources + harness (libomp, archer as OMPT tool);
+    runs the assembly functions with 1 and 4 threads and counts reports.  Supporting evidence, never a substitute."""
+    import glob, subprocess, re
+    archer = sorted(glob.glob("/usr/lib/llvm-*/lib/libarcher.so"))
+    R = ombuild.REPO; V = core.VERIF
+    out = os.path.join(bdir, "h_c05_tsan")
+    res = dict(run=True, archer=bool(archer))
+    if not os.path.exists(out):
+        inc, defs = ombuild.harness_flags(bdir)
+        srcs = [os.path.join(V, "harness", "h_c05.cpp")] + sorted(glob.glob(R + "/OpenMEEGMaths/src/*.cpp"))
+        for c in sorted(glob.glob(R + "/OpenMEEGMaths/src/*.C")): srcs += ["-x", "c++", c]
+        srcs += ["-x", "c++"] + sorted(glob.glob(R + "/OpenMEEG/src/*.cpp"))
+        cmd = ["timeout", "1500", "clang++", "-std=gnu++17", "-O1", "-g", "-fopenmp", "-fsanitize=thread", "-w"] + defs + inc + srcs + \
+              ["-o", out, "-llapacke", "-lopenblas", "-lmatio", "-lhdf5_serial", "-ldl", "-rdynamic"]
+        p = subprocess.run(cmd, stdout=subprocess.PIPE, stderr=subprocess.STDOUT)
+        if p.returncode != 0:
+            res.update(built=False, note="clang/libomp ThreadSanitizer build failed: " + p.stdout.decode(errors="replace")[-400:])
+            ck.notes.append(res["note"]); return res
+    res["built"] = True
+    k0 = mods[0][0]
+    cases = ["c05 2 %d %d 2 1 4 |" % (k0, f) for f in (1, 2, 3, 4, 5, 7)]
+    cf = os.path.join(wd, "tsan_cases.txt"); open(cf, "w").write("\n".join(cases) + "\n")
+    e = dict(os.environ); e.update(ENV); e["OPENBLAS_NUM_THREADS"] = "1"
+    e["TSAN_OPTIONS"] = "ignore_noninstrumented_modules=1 exitcode=0"
+    if archer: e["OMP_TOOL_LIBRARIES"] = archer[-1]
+    p = subprocess.run(["timeout", "1500", out, cf], stdout=subprocess.PIPE, stderr=subprocess.PIPE, env=e, cwd=wd)
+    err = p.stderr.decode(errors="replace")
+    n = err.count("WARNING: ThreadSanitizer")
+    summ = sorted(set(re.findall(r"SUMMARY: ThreadSanitizer: ([^\n]*)", err)))
+    res.update(cases=len(cases), reports=n, summaries=summ[:10], rc=p.returncode)
+    ck.log("ThreadSanitizer: %d cases, %d reports" % (len(cases), n))
+    if n:
+        ck.violation("ThreadSanitizer reports a data race: " + (summ[0][:120] if summ else "?"),
+                     "clang/libomp/archer ThreadSanitizer build of the library reports %d data races while assembling on %s with 4 threads; first: %s"
+                     % (n, mods[0][1], summ[0] if summ else "?"), dict(kind="tsan", cases=cases, report=err[:4000]))
+    return res
+
 def main(replay=None):
     ck = core.Check(PROP, "proof")
     quick = ck.tier != "thorough"
@@ -221,7 +259,14 @@ def main(replay=None):
                                  dict(kind="hammer", cases=[c], impl=[o]))
         if rp.get("model_cases"):
             mo = core.run_model(rp["model_cases"])
-            for c, o in zip(rp["model_cases"], mo): print("replay (model): %s...\n  -> %s..." % (c[:80], o[:200]))
+            for c, o, hc, ho in zip(rp["model_cases"], mo, cases, io):
+                print("replay (model): %s...\n  -> %s..." % (c[:80], o[:200]))
+                if hc.split()[1] == "1":
+                    A, nra = canon_model([int(x) for x in o.split()]); ii, _ = core.fparse(ho); B, nrb = canon_impl(ii or [-1])
+                    if A is None or B is None or A != B or nra != nrb:
+                        fd = first_difference(A or {}, B or {})
+                        ck.violation(rp.get("signature", "footprint replay"), "replayed footprint case differs: regions model %s / code %s, first difference %s" % (nra, nrb, fd),
+                                     dict(kind="footprint", cases=[hc], model_cases=[c]), found_input=False)
         return ck.finish()
 
     mods, kx = build_models(ck.rng, wd, quick)
@@ -351,6 +396,10 @@ def main(replay=None):
             if v[0] == "proof":
                 rp = dict(v[2]); rp["first_failing_lemma"] = broken_lemma
                 ck.violations[n] = (v[0], v[1] + " -- first failing proof: %s (%s line %d)" % (broken_lemma["lemma"], broken_lemma["file"], broken_lemma["line"]), rp, v[3])
+    # ------------------------------------------------------------ thorough tier: ThreadSanitizer (clang + libomp + archer), supporting only
+    tsan = dict(run=False)
+    if not quick:
+        tsan = tsan_run(ck, bdir, wd, mods)
     ck.drop_proof_violation_if(bool(found))
 
     regs = gen.get("regions", [])
@@ -365,7 +414,7 @@ def main(replay=None):
                   models=[d for _, d, _, _ in mods], hypothesis_well_indexed_checked_on=len(dumps), hypothesis_failures=hyp_bad,
                   parallel_loops=[dict(name=r["name"], where="%s:%d" % (r["file"], r["line"]), variant=r["variant"], critical=r["critical"],
                                        wrapped=r["wrapped"], rethrow=r["rethrow"]) for r in regs],
-                  dead_pragmas=gen.get("dead", []), hammer_runs=hammered,
+                  dead_pragmas=gen.get("dead", []), hammer_runs=hammered, thread_sanitizer=tsan,
                   traces_validated_against_impl=len(fp_cases) - fp_mism,
                   explanation="theorems hold for every schedule of the model; the tie is the translator (loop descriptors regenerated from the sources), the footprint correspondence through the templates, and thread-count differential runs of the compiled library")
     ck.cov["trusted_base"] += ["translator translators/t_parloops.py (pattern based; unknown syntax is reported, never guessed)",
